@@ -33,7 +33,7 @@ ANCHORS = ["dagrt.codegen.transform:eliminate_self_dependencies", "dagrt.codegen
            "dagrt.codegen.transform:isolate_function_calls", "dagrt.codegen.transform:expand_IfThenElse",
            "dagrt.codegen.transform:ExprIfThenElseExpander.map_if",
            "dagrt.codegen.transform:SelfDependencyEliminator.map_statement"]
-MIN_NONTRIVIAL = {"quick": 1200, "thorough": 30000}
+MIN_NONTRIVIAL = {"quick": 600, "thorough": 15000}
 REQUIRED_COUNTERS = {"quick": ["passes_applied", "valuations_compared", "introduced_names_checked",
                                "trees_from_real_lowering", "handbuilt_trees"],
                      "thorough": ["passes_applied", "valuations_compared", "introduced_names_checked",
@@ -44,9 +44,9 @@ PASSES = ["selfdep", "args", "calls", "ifexpr", "pipeline"]
 
 
 def plan(tier, seed):
-    per = 25 if tier == "quick" else 600
+    per = 40 if tier == "quick" else 700
     sh = [{"kind": "prog", "seed": f"C07:{seed}:{k}", "count": per} for k in range(8)]
-    per2 = 60 if tier == "quick" else 1500
+    per2 = 90 if tier == "quick" else 1600
     sh += [{"kind": "hand", "seed": f"C07:{seed}:h{k}", "count": per2} for k in range(8)]
     return sh
 
@@ -269,7 +269,7 @@ def features(tree):
             except ValueError:
                 continue
             if call_in_if_branch(x):
-                f.add("call-inside-conditional-expression-branch")
+                f.add("call-in-lazily-evaluated-position")
             if nested_if(x):
                 f.add("nested-conditional-expression")
             if nested_call(x):
@@ -289,11 +289,16 @@ def _kids(e):
 
 
 def call_in_if_branch(e, inside=False):
+    """A call in a lazily evaluated position: a branch of a conditional
+    expression or a non-first operand of a short-circuit and/or."""
     if e[0] == "call" and inside:
         return True
     if e[0] == "if":
         return (call_in_if_branch(e[1], inside) or call_in_if_branch(e[2], True)
                 or call_in_if_branch(e[3], True))
+    if e[0] in ("and", "or"):
+        return (call_in_if_branch(e[1], inside)
+                or any(call_in_if_branch(x, True) for x in e[2:]))
     return any(call_in_if_branch(x, inside) for x in _kids(e))
 
 
@@ -379,7 +384,11 @@ def check_tree(tree, valuations, rec, wit, only_pass=None):
                 break
             except (Undefined, OverflowError, ZeroDivisionError, TypeError, ValueError) as ex:
                 key = "+".join(sorted(feats)) or "plain"
-                rec.violation(f"{pname}:transformed-program-fails-where-original-does-not-on-{key}",
+                mech = f"{pname}:transformed-program-fails-where-original-does-not-on-{key}"
+                if "call-in-lazily-evaluated-position" in feats:
+                    # something hoisted out of a branch that is not taken is evaluated anyway
+                    mech = f"{pname}:lazily-evaluated-operand-hoisted"
+                rec.violation(mech,
                               f"{type(ex).__name__}: {ex}\n{s_out}", dict(w, valuation=vi))
                 bad = True
                 break
@@ -408,8 +417,11 @@ def check_tree(tree, valuations, rec, wit, only_pass=None):
             if sorted(map(repr, a.calls)) != sorted(map(repr, b.calls)):
                 extra = [c for c in b.calls if c not in a.calls]
                 missing = [c for c in a.calls if c not in b.calls]
-                key = "+".join(sorted(feats & {"call-inside-conditional-expression-branch"})) or "plain"
-                rec.violation(f"{pname}:external-calls-changed-on-{key}",
+                key = "+".join(sorted(feats & {"call-in-lazily-evaluated-position"})) or "plain"
+                mech = f"{pname}:external-calls-changed-on-{key}"
+                if key != "plain" and not missing:
+                    mech = f"{pname}:lazily-evaluated-operand-hoisted"
+                rec.violation(mech,
                               f"extra calls {extra[:3]}, missing calls {missing[:3]}\ninput:\n{s_in}output:\n{s_out}",
                               dict(w, valuation=vi))
                 break
